@@ -332,6 +332,10 @@ unsafe impl GlobalAlloc for Checking {
             T_BYTES.fetch_sub(e.size as isize, SeqCst);
             T_FREES.fetch_add(1, SeqCst);
         }
+        if e.meta & 1 == 1 {
+            // poison: a dangling guest pointer then yields visibly wrong data instead of stale bytes
+            std::ptr::write_bytes(p, 0xDD, layout.size());
+        }
         #[cfg(all(target_arch = "x86_64", target_os = "linux", not(miri)))]
         if low::contains(p as usize) {
             let _g = lock();
